@@ -160,7 +160,7 @@ class TraceVisitor(Visitor):
     def visit_Circuit(self, circuit):
         if len(self.traces) == 0:
             return
-        self.objective = self.traces[self.index].start
+        self.objective = self.traces[self.index].end
 
         return self.visit(circuit.body)
 
@@ -185,7 +185,7 @@ class TraceVisitor(Visitor):
                     self.objective = None
                     return
                 else:
-                    self.objective = self.traces[self.index].start
+                    self.objective = self.traces[self.index].end
             else:
                 address.append(n)
                 self.visit(nxt)
@@ -214,7 +214,7 @@ class TraceVisitor(Visitor):
                 if self.index == len(self.traces):
                     self.objective = None
                 else:
-                    self.objective = self.traces[self.index].start
+                    self.objective = self.traces[self.index].end
 
     def visit_CaseStatement(self, case):
         # store the walk status
